@@ -37,7 +37,12 @@ def conclude(agg):
 
 def coord(rng):
     """routing coordinate; the boundary value 0 is over-represented (a written 0 is a value, not a wildcard)"""
-    return 0 if rng.random() < 0.12 else rng.randrange(0, 5000, 5)
+    r = rng.random()
+    if r < 0.12:
+        return 0
+    if r < 0.2:
+        return rng.randrange(100000, 2000000000, 5)      # die sizes in database units: 6-10 digits (the grammar of the supported subset has no negative coordinates)
+    return rng.randrange(0, 5000, 5)
 
 
 def gen_route(rng, special, vianames, stats):
@@ -73,7 +78,7 @@ def gen_route(rng, special, vianames, stats):
             if r < 0.3 and vianames:
                 v = rng.choice(vianames)
                 if special and rng.random() < 0.5:
-                    nx, ny, sx, sy = rng.randint(1, 4), rng.randint(1, 3), rng.randrange(5, 100, 5) * rng.choice([1, 1, -1]), rng.randrange(5, 100, 5) * rng.choice([1, 1, -1])
+                    nx, ny, sx, sy = rng.choice([1, 2, 3, 4, 12, 40]), rng.choice([1, 2, 3, 11]), rng.randrange(5, 100, 5) * rng.choice([1, 1, -1]), rng.randrange(5, 100, 5) * rng.choice([1, 1, -1])
                     if sx < 0 or sy < 0:
                         stats['negative_array_steps'] += 1
                     toks += [v, 'DO', str(nx), 'BY', str(ny), 'STEP', str(sx), str(sy)]
@@ -205,7 +210,7 @@ def gen_def(rng):
         L.append('NONDEFAULTRULES 1 ;\n - rule1 + HARDSPACING + LAYER M1 WIDTH 200 SPACING 100 + VIA via12_fixed ;\nEND NONDEFAULTRULES')
     # components
     rec['components'] = {}
-    nc = rng.randint(0, 40)
+    nc = rng.randint(0, 40) if rng.random() < 0.95 else rng.choice([260, 400])
     CL = [f'COMPONENTS {nc} ;']
     for i in range(nc):
         name = rng.choice([f'U{i}', f'core/u{i}', f'reg_{i}_'])
@@ -218,7 +223,7 @@ def gen_def(rng):
     L.append('\n'.join(CL))
     # pins
     rec['pins'] = {}
-    npn = rng.randint(0, 20)
+    npn = rng.randint(0, 20) if rng.random() < 0.95 else rng.choice([130, 300])
     PL = [f'PINS {npn} ;']
     for i in range(npn):
         name = rng.choice([f'p{i}', f'bus[{i}]'])
